@@ -93,6 +93,12 @@ func (s *scRebal) Configure(w *World) {
 	w.buildCluster()
 }
 
+func (s *scRebal) TuneMember(w *World, m *Member) {
+	if s.prop == "C16r" {
+		drawHookScrapes(w, m)
+	}
+}
+
 func (s *scRebal) BeforeStart(w *World, m *Member) {
 	m.sd = servicediscovery.NewServiceDiscovery(m.cfg, m.bus)
 }
